@@ -27,6 +27,7 @@ PROPERTIES = {
     ),
     "C06": dict(
         modules=["contracts.c06_input_types", "contracts.c06_defaults", "contracts.c18_names", "contracts.c09_pruning"],
+        bounded=[_bounded.lazy("contracts.c09_pruning", "bounded_pruning")],
         explanation="input type translator and default-literal translator against the image/coercion spec functions, by structural induction",
         assumptions=["acceptance/refusal of concrete values by the emitted annotations is pydantic's (assumed contract)"],
     ),
@@ -44,7 +45,8 @@ PROPERTIES = {
     ),
     "C18": dict(
         modules=["contracts.c18_names", "contracts.c04_modules"],
-        bounded=[_bounded.lazy("contracts.c18_names", "bounded_names"), _bounded.lazy("contracts.c18_names", "bounded_pairs")],
+        bounded=[_bounded.lazy("contracts.c18_names", "bounded_names"), _bounded.lazy("contracts.c18_names", "bounded_pairs"),
+                 _bounded.lazy("contracts.c18_names", "bounded_wire_names")],
         explanation="process_name for all strings in SMT string theory; str_to_snake_case by exhaustive bounded enumeration",
         assumptions=["A_snake: assumed contract on str_to_snake_case (regex lookahead is outside the solvers' fragment), bounded stand-in only"],
     ),
